@@ -17,7 +17,39 @@ Theorem C11_alive_effect : forall w g k, wkill w = Some (S (S k)) \/ wkill w = N
   wfs (effect w g) = g (wfs w) /\ alive (effect w g) = true.
 Proof. intros w g k [H|H]; unfold effect, kill_step, alive; rewrite H; cbn; split; reflexivity. Qed.
 
+Require Import FL.Fs.Fs FL.Flw.Run FL.Flw.NumInv FL.Flw.NumRun FL.Flw.NumTheorems FL.Flw.NumRestart FL.Flw.KillFacts FL.Flw.NumKill FL.Flw.NumKillRestart FL.Oracles.O_Flw.
+(* Numbers naming, direct mode, ANY history and ANY kill point: what the killed process leaves - r00000.., and rCURRENT if it exists (a kill
+   between the rename and the creation of the new current file leaves none) - is exactly the acknowledged records, in order *)
+Theorem C11_numbers_kill_keeps_acked c crit t0 off ops1 k ops2 :
+  numcfg c crit -> c_cap c = None -> Forall basic_op ops1 -> Forall basic_op ops2 ->
+  let x1 := fst (run (sys0 t0 off) (OStart c :: ops1 ++ [OSetKill k])) in
+  let xe := fst (run (sys0 t0 off) (OStart c :: ops1 ++ [OSetKill k] ++ ops2 ++ [OCrash])) in
+  exists closed ocur,
+    reader_view_opt c (wfs (s_w xe)) closed ocur
+    /\ concat closed ++ (match ocur with Some cu => cu | None => [] end) = written ops1 ++ acked x1 ops2.
+Proof. exact (numbers_kill_keeps_acked c crit t0 off ops1 k ops2). Qed.
+
+(* ... and a logger started on that directory (any capacity, criterion, append flag) succeeds in every operation and ends with exactly
+   acknowledged ++ what it wrote itself  (partial: first run shorter than 2^32 operations) *)
+Theorem C11_numbers_kill_restart c crit c' crit' t0 off ops1 k ops2 ops3 :
+  numcfg c crit -> c_cap c = None -> numcfg c' crit' -> c_spec c' = c_spec c ->
+  Forall basic_op ops1 -> Forall basic_op ops2 -> Forall basic_op ops3 ->
+  (N.of_nat (S (length ops1 + length ops2)) <= u32_max)%N ->
+  let x1 := fst (run (sys0 t0 off) (OStart c :: ops1 ++ [OSetKill k])) in
+  let xk := fst (run (sys0 t0 off) (OStart c :: ops1 ++ [OSetKill k] ++ ops2 ++ [OCrash])) in
+  let r2 := run xk (OStart c' :: ops3 ++ [OStop]) in
+  Forall obs_ok (snd r2)
+  /\ exists closed ocur,
+       reader_view_opt c' (wfs (s_w (fst r2))) closed ocur
+       /\ concat closed ++ (match ocur with Some cu => cu | None => [] end)
+          = written ops1 ++ acked x1 ops2 ++ written ops3.
+Proof. exact (numbers_kill_restart_partial c crit c' crit' t0 off ops1 k ops2 ops3). Qed.
+
 Check C11_dead_no_effect. Check C11_kill_point. Check C11_alive_effect.
 Print Assumptions C11_dead_no_effect.
 Print Assumptions C11_alive_effect.
 Print Assumptions C11_kill_point.
+Check C11_numbers_kill_keeps_acked.
+Print Assumptions C11_numbers_kill_keeps_acked.
+Check C11_numbers_kill_restart.
+Print Assumptions C11_numbers_kill_restart.
